@@ -101,9 +101,21 @@ C01Dur(H, E, c, S) ==
 
 \* --------------------------------------------------------------------- C04
 SpanIn(S, ms) == IF ms = {} THEN 0 ELSE MaxOf({S.leaves[m].end : m \in ms}) - MinOf({S.leaves[m].start : m \in ms})
+\* Named deviation (known finding): the code takes the span over the block's DIRECT entries, counting a nested block as
+\* [its start, its end]; that differs from the span of the contained operations exactly when a nested block has contents
+\* that start before the block itself (a JOINED_END operation longer than its reference inside it).
+Dev_NodeSpan(H, S, b) ==
+  LET ks == {k \in Range(H[b].kids) : InSnap(S, k)} IN
+  IF ks = {} THEN 0 ELSE MaxOf({Rec(S, k).end : k \in ks}) - MinOf({Rec(S, k).start : k \in ks})
+HasEarlyNested(H, S, b) ==
+  \E k \in Blocks(H, b) \ {b} : k \in DOMAIN S.comps /\
+     LET ms == Range(S.comps[k].members) \cap DOMAIN S.leaves IN
+     ms # {} /\ MinOf({S.leaves[m].start : m \in ms}) < S.comps[k].start
 C04Span(H, c, S) ==
   UNION {LET ms == Range(S.comps[b].members) \cap DOMAIN S.leaves IN
-         When(S.comps[b].dur_v = SpanIn(S, ms), Fail("C04.span", b, <<"reported", S.comps[b].dur_v, "span", SpanIn(S, ms)>>))
+         When(S.comps[b].dur_v = SpanIn(S, ms),
+              Fail(IF b \in DOMAIN H /\ S.comps[b].dur_v = Dev_NodeSpan(H, S, b) /\ HasEarlyNested(H, S, b)
+                   THEN "C04.span.nested_early" ELSE "C04.span", b, <<"reported", S.comps[b].dur_v, "span", SpanIn(S, ms)>>))
          : b \in DOMAIN S.comps}
 \* whenever no contained operation starts before the block's first operations, everything FOLLOWED_BY the
 \* block starts only after all of the block's operations have ended
